@@ -7,6 +7,7 @@ Everything here is harness code; nothing in this file judges auditok.
 import hashlib
 import importlib
 import json
+import contextlib
 import os
 import sys
 import tempfile
@@ -599,3 +600,27 @@ def write_evidence(mod, tier, seed, tot, wall, violations, extra_cov=None):
         fp.write("\n")
     os.replace(tmp, path)
     return path
+
+
+@contextlib.contextmanager
+def preempt_every_line():
+    """Threads started inside this block give up the interpreter at every line they execute in a file of
+    the repository: a thread switch becomes likely between any two statements of the library, also where
+    the window is two bytecodes wide.  (Schedules are not owned - this only amplifies; a member using it can
+    miss a race, it cannot report one that is not there.)"""
+    import threading
+    import time as _t
+
+    def tracer(frame, event, _arg):
+        if frame.f_code.co_filename.startswith(REPO + os.sep):
+            if event == "line":
+                _t.sleep(0)
+            return tracer
+        return None
+
+    old = threading.gettrace() if hasattr(threading, "gettrace") else None
+    threading.settrace(tracer)
+    try:
+        yield
+    finally:
+        threading.settrace(old)
